@@ -216,6 +216,8 @@ where
     // Track spawned hedge tasks
     let mut hedges_spawned: usize = 0;
     let mut primary_error: Option<S::Error> = None;
+    // Number of attempts that have reported an error so far (latency mode)
+    let mut failures_received: usize = 0;
 
     // Get delay for first hedge
     let first_delay = config.delay.get_delay(1);
@@ -259,9 +261,10 @@ where
                                     if attempt == 0 {
                                         primary_error = Some(e.clone());
                                     }
-                                    // Check if all attempts exhausted
-                                    if hedges_spawned + 1 >= max_attempts {
-                                        // All spawned, check if this was the last result
+                                    failures_received += 1;
+                                    // Fail only once every attempt has been started and has failed
+                                    if failures_received >= max_attempts {
+                                        // All spawned and all failed
                                         config.listeners.emit(&HedgeEvent::AllFailed {
                                             name: config.name.clone(),
                                             attempts: hedges_spawned + 1,
